@@ -10,7 +10,7 @@ Two bodies are compared after a normalisation that removes what a behaviour-pres
 The walk builds a bijection on blocks and on reassigned locals; terms must be equal modulo that bijection and a per-pair
 substitution on names (`word` <-> `word_unchecked`, Identity <-> Complement, ...). The first divergence is reported.
 """
-from facts import tstr, callee_name
+from facts import subterms, tstr, callee_name
 
 ALIASES = {"std::cmp::Ord::min": "std::cmp::min", "std::cmp::Ord::max": "std::cmp::max", "core::cmp::Ord::min": "std::cmp::min",
            "core::cmp::Ord::max": "std::cmp::max", "core::cmp::min": "std::cmp::min", "core::cmp::max": "std::cmp::max"}
@@ -131,6 +131,34 @@ class Walker:
             na, nb = self.canon(ta[1]), self.canon(tb[1])
             wa, wb = self.canon(ta[4] if len(ta) > 4 else ta[1]), self.canon(tb[4] if len(tb) > 4 else tb[1])
             if na != nb and wa != wb:
+                # two spellings of one quantity (`Complement::count_ones(self)` / `self.count_zeros()`): compare what the calls
+                # return, expanded through straight-line crate functions
+                from guards import canon as expand
+                F = self.A.b.facts
+
+                def names(t):
+                    if isinstance(t, str):
+                        return self.canon(t)
+                    if isinstance(t, tuple):
+                        return tuple(names(x) for x in t)
+                    return t
+                def rev(t):
+                    # the substitution read backwards: the first twin renamed into the second twin's vocabulary
+                    if isinstance(t, str):
+                        for a_, b_ in self.subst:
+                            if b_ in t and a_ not in t:
+                                t = t.replace(b_, a_)
+                        return t
+                    if isinstance(t, tuple):
+                        return tuple(rev(x) for x in t)
+                    return t
+                has_var = lambda t: any(isinstance(x, tuple) and x and x[0] == "var" for x in subterms(t))
+                ca, cb = expand(F, names(ta)), expand(F, names(tb))
+                if ca == cb and not has_var(ca):
+                    return
+                ca, cb = expand(F, rev(ta)), expand(F, tb)
+                if ca == cb and not has_var(ca):
+                    return
                 raise Diverge("%s: callees differ: %s vs %s" % (ctx, ta[1], tb[1]))
             if len(ta[2]) != len(tb[2]):
                 raise Diverge("%s: %s vs %s" % (ctx, tstr(ta)[:120], tstr(tb)[:120]))
@@ -253,10 +281,28 @@ class Walker:
         return self.steps
 
 
+def shape(b):
+    """Coarse structure of a body: number of reachable blocks and how many terminators of each kind (calls counted, not named)."""
+    kinds = {}
+    for bi in b.reachable():
+        blk = b.blocks[bi]
+        if blk.get("cleanup"):
+            continue
+        k = blk["term"]["t"]
+        if k == "assert":
+            continue          # overflow / bounds assertions come and go with the arithmetic; they are not structure
+        kinds[k] = kinds.get(k, 0) + 1
+    return tuple(sorted(kinds.items()))
+
+
 def compare(A, B, subst, types=True):
-    """Returns (True, steps) or (False, message)."""
+    """Returns (True, steps), (False, message) -- the twins run in parallel and differ at a named point -- or (None, message): the
+    twins are structured differently (one of them was restructured), so a statement-by-statement comparison says nothing."""
     w = Walker(A, B, subst, types)
     try:
         return True, w.walk()
     except Diverge as d:
+        if shape(A) != shape(B):
+            return None, "the twins are structured differently (%s vs %s): not comparable statement by statement; first difference met: %s" % (
+                dict(shape(A)), dict(shape(B)), str(d)[:160])
         return False, str(d)
